@@ -121,6 +121,7 @@ int main(int argc, char ** argv) {
             }
             if ((v & 0xfffff) == 0 && mc_deadline_hit()) break;
             mc_executed++;
+            mc_idx = v - lo + 1;          /* progress indicator for the watchdog */
         }
         n_nontrivial = mc_executed;
         mc_idx = hi - lo;
